@@ -26,7 +26,10 @@ def kwargs_for(h):
 
 
 def main(tier, seed):
+    refused = []
     return dbtie.db_check("C04", tier, seed, PROFILE, 400, 5000, "Prop_C04",
                           "text of time / number cells and the csv module are standard-library behaviour (oracle pairs with round-trip hypotheses); "
                           "encodings are the text layer's (the file is decoded with the configured encoding by an independent reader)",
-                          configs=[(True, True), (True, False)], kwargs_for=kwargs_for)
+                          configs=[(True, True), (True, False)], kwargs_for=kwargs_for,
+                          pre=lambda: run_translator("py2coq_io.py", "tinyflux/storages.py", "gen/IOGen.v", refused),
+                          extra_cov={"translator_storage_scripts": dict(IO_TRANSLATOR_COV, refused=refused)})
